@@ -50,9 +50,8 @@ RULE = ("dense / sparse / Kruskal / Tucker / sum holders of small-integer data o
         "non-cubical shapes whose multiplied modes match the vector (valid under version=1, refused by the default); "
         "refused requests (skip_dim -2 / -1 / N / N+1, version 0 / 3, non-cubical, wrong vector length) and the wrong "
         "vector length that is never looked at (nothing multiplied); result kind asserted (scalar / 1-d / 2-d array / "
-        "tensor; the extent-1 skip_dim=0 scalar of the default version is the known finding K02-ttsv-extent1-scalar), "
-        "and ttsv in the dtypes family (default version on same-typed narrow data and vector = known finding "
-        "K02-ttsv-storage-dtype, accepted only when the result is numpy's arithmetic in that type); "
+        "tensor, also for extent 1: fixed F02-ttsv-extent1-scalar, corpus witness), and ttsv in the dtypes family, both "
+        "versions, every storage type asserted (fixed F02-ttsv-storage-dtype, corpus witness); "
         "family tucker_sparse_core: innerprod / norm / mttkrp of a Tucker tensor whose core is an sptensor storing "
         "nothing / one entry / half / every entry in every stored order, non-cubical cores, factors with negative "
         "entries; other operand dense / sparse / Kruskal / Tucker with a dense or sparse core, both call orders; ALWAYS "
@@ -1542,7 +1541,7 @@ DTYPE_PENDING = {
 #: result is computed in the storage type of the operands (a doctest of each pins an integer-typed result for
 #: integer input). Their deviations are reported as violations and accepted by a matcher only when the result is
 #: exactly what arithmetic in the storage type gives.
-DTYPE_KNOWN_KEYS = ("ttt:full", "ttt:partial", "ttt:outer", "scale:sparse:array", "scale:sparse:tensor", "ttsv:default")
+DTYPE_KNOWN_KEYS = ("ttt:full", "ttt:partial", "ttt:outer", "scale:sparse:array", "scale:sparse:tensor")
 
 
 def dt_pending(key, dt, md):
